@@ -406,7 +406,11 @@ fn run_interleaved(prog: &Program, rep: &mut Report, seed: u64, thorough: bool) 
                 r2.push(d2);
                 // queries on one manager between two constructions on the other
                 if k % 3 == 0 {
-                    let _ = guard(|| (x.included_in(t1[k / 2]), m1.is_empty_re(x), y.included_in(t2[k / 2])));
+                    let _ = guard(|| (x.included_in(t1[k / 2]), y.included_in(t2[k / 2])));
+                    // (emptiness only where the derivative closure is small: the call itself cannot be interrupted)
+                    if closure_size(&mut m1, x, 150).is_some() {
+                        let _ = guard(|| m1.is_empty_re(x));
+                    }
                 }
             }
             _ => break,
